@@ -69,6 +69,7 @@ fn main() {
         "C13" => rig::props::c13::main(tier, replay),
         "C14" => rig::props::c14::main(tier, replay),
         "C19" => rig::props::c19::main(tier, replay),
+        "C08" => rig::props::c08::main(tier, replay),
         "selftest" => rig::props::c03::selftest(),
         _ => {
             eprintln!("unknown property {}", prop);
